@@ -659,7 +659,7 @@ struct CaseOut {
     panics: Vec<String>,
     max_depth: usize,
     /// per executed op: (kind, exit code or STATICCALL flag, length of the returned / revert data)
-    results: Vec<(String, u32, usize)>,
+    results: Vec<(String, u32, usize, bool)>,
 }
 
 const FAIL_PLAN_K: u64 = 60;
@@ -897,7 +897,7 @@ fn run_case(w: &mut World, pc: &PCase) -> CaseOut {
                     canon: &parsed.canon,
             ext: &parsed.ext,
                 };
-                out.results.push(("invoke".into(), c, data.len()));
+                out.results.push(("invoke".into(), c, data.len(), data.iter().any(|b| *b != 0)));
                 let mut o = vec![c.to_string()];
                 obs_bytes(&mut o, &data);
                 obs_map(&mut o, &storage);
@@ -1013,7 +1013,7 @@ fn run_case(w: &mut World, pc: &PCase) -> CaseOut {
                     canon: &parsed.canon,
             ext: &parsed.ext,
                 };
-                out.results.push(("static".into(), if flag.is_zero() { 0 } else { 1 }, data.len()));
+                out.results.push(("static".into(), if flag.is_zero() { 0 } else { 1 }, data.len(), data.iter().any(|b| *b != 0)));
                 let mut o = vec![zs(&flag)];
                 obs_bytes(&mut o, &data);
                 obs_msgs(&mut o, &parsed);
@@ -1094,6 +1094,28 @@ fn small_size(r: &mut Prng, allow_bad: bool) -> BigUint {
         17 => (&one << 32) - &one,
         18 => (&one << 256) - &one,
         _ => &one << 64,
+    }
+}
+
+/// data-source offsets of the copy instructions / CALLDATALOAD: far beyond any data, many with a SMALL
+/// low 64-bit limb (an implementation that truncates the offset would copy real data instead of zeros)
+fn src_edge(r: &mut Prng, len_hint: u64) -> BigUint {
+    let one = BigUint::from(1u8);
+    let p = |k: usize| &one << k;
+    match r.below(14) {
+        0 => p(32) - &one,
+        1 => p(32),
+        2 => p(64) - &one,
+        3 | 4 => p(64),
+        5 => p(64) + BigUint::from(7u8),
+        6 => p(64) + BigUint::from(r.below(len_hint.max(1))),
+        7 => p(64) + BigUint::from(len_hint),
+        8 => p(128) + BigUint::from(r.below(4)),
+        9 => p(255) + BigUint::from(r.below(4)),
+        10 => p(256) - &one,
+        11 => p(192) + BigUint::from(r.below(len_hint.max(1))),
+        12 => p(65) + BigUint::from(r.below(8)),
+        _ => (BigUint::from(1 + r.below(1000)) << 64) + BigUint::from(r.below(len_hint.max(1))),
     }
 }
 
@@ -1317,7 +1339,11 @@ impl<'a> Gen<'a> {
         let bad = self.r.chance(5);
         match self.r.below(6) {
             0 => {
-                let i = if self.r.chance(70) { BigUint::from(self.r.below(120)) } else { boundary_word(self.r) };
+                let i = match self.r.below(10) {
+                    0..=4 => BigUint::from(self.r.below(120)),
+                    5..=8 => src_edge(self.r, 40),
+                    _ => boundary_word(self.r),
+                };
                 self.a.push_big(&i).op(0x35);
                 self.store_result();
             }
@@ -1327,7 +1353,12 @@ impl<'a> Gen<'a> {
                 self.store_result();
             }
             2 | 3 => {
-                let (s, src, dst) = (small_size(self.r, bad), if self.r.chance(70) { BigUint::from(self.r.below(150)) } else { boundary_word(self.r) }, mem_off(self.r, bad));
+                let src = match self.r.below(10) {
+                    0..=4 => BigUint::from(self.r.below(150)),
+                    5..=8 => src_edge(self.r, 40),
+                    _ => boundary_word(self.r),
+                };
+                let (s, dst) = (small_size(self.r, bad), mem_off(self.r, bad));
                 let o = *self.r.pick(&[0x37u8, 0x39]);
                 self.a.push_big(&s).push_big(&src).push_big(&dst).op(o);
             }
@@ -1343,6 +1374,29 @@ impl<'a> Gen<'a> {
                 self.store_result();
             }
         }
+    }
+    /// copy 32 bytes from a far-away source offset over a non-zero sentinel and return what is there:
+    /// the specification says zeros
+    fn far_copy(&mut self) {
+        let dst = SCRATCH + 0x600 + 32 * self.r.below(4);
+        let sentinel = big(&self.r.bytes(32));
+        self.a.push_big(&sentinel).push(dst).op(0x52);
+        let src = src_edge(self.r, 40);
+        let n = 1 + self.r.below(32);
+        match self.r.below(4) {
+            0 => { self.a.push(n).push_big(&src).push(dst).op(0x37); }
+            1 => { self.a.push(n).push_big(&src).push(dst).op(0x39); }
+            2 => {
+                self.a.push(n).push_big(&src).push(dst);
+                if self.r.chance(50) { let e = self.echo; self.a.push_be(&e); } else { self.a.op(0x30); }
+                self.a.op(0x3c);
+            }
+            _ => {
+                self.a.push_big(&src).op(0x35).push(dst).op(0x52);
+            }
+        }
+        self.a.push(dst).op(0x51);
+        self.store_result();
     }
     fn keccak(&mut self) {
         let bad = self.r.chance(4);
@@ -1383,7 +1437,8 @@ impl<'a> Gen<'a> {
             }
             _ => {
                 let bad = self.r.chance(4);
-                let (s, src, dst) = (small_size(self.r, bad), BigUint::from(self.r.below(12)), mem_off(self.r, bad));
+                let src = if self.r.chance(55) { BigUint::from(self.r.below(12)) } else { src_edge(self.r, 7) };
+                let (s, dst) = (small_size(self.r, bad), mem_off(self.r, bad));
                 self.a.push_big(&s).push_big(&src).push_big(&dst);
                 if self.r.chance(50) { let e = self.echo; self.a.push_be(&e); } else { self.a.push_be(&eth_from_id(1)); }
                 self.a.op(0x3c);
@@ -1469,7 +1524,8 @@ fn gen_grammar(r: &mut Prng, w: &World) -> Vec<u8> {
             42..=53 => g.storage(),
             54..=61 => g.looping(),
             62..=71 => g.jumps(),
-            72..=79 => g.copies(),
+            72..=76 => g.copies(),
+            77..=79 => g.far_copy(),
             80..=84 => g.keccak(),
             85..=89 => g.context(),
             90..=92 => g.logs(),
@@ -1605,12 +1661,13 @@ fn stack_edge(fill: usize, v: &BigUint, opbyte: u8, tail: usize) -> Vec<u8> {
 }
 
 fn rand_calldata(r: &mut Prng) -> Vec<u8> {
-    let n = match r.below(4) {
+    let n = match r.below(10) {
         0 => 0,
-        1 => r.below(8) as usize,
-        _ => r.below(100) as usize,
+        1 | 2 => r.below(8) as usize,
+        _ => 8 + r.below(92) as usize,
     };
-    r.bytes(n)
+    // no zero bytes: a copy of real data where zeros are due is then always visible
+    r.bytes(n).into_iter().map(|b| if b == 0 { 0xa5 } else { b }).collect()
 }
 
 fn static_inv(r: &mut Prng, calldata: &[u8]) -> Inv {
@@ -1716,7 +1773,7 @@ struct JobOut {
     codes: Vec<(String, u32)>,
     panics: Vec<String>,
     max_depth: usize,
-    results: Vec<(String, u32, usize)>,
+    results: Vec<(String, u32, usize, bool)>,
 }
 
 /// fixed programs whose outcome is dictated by the property itself (independent of the model):
@@ -1740,6 +1797,16 @@ fn probes() -> Vec<(&'static str, Vec<u8>, bool, &'static str)> {
         ("static-selfdestruct", vec![0x5f, 0xff], true, "readonly-effect"),
         ("static-call-with-value", vec![0x5f, 0x5f, 0x5f, 0x5f, 0x60, 0x01, 0x5f, 0x5a, 0xf1, 0x60, 0x20, 0x5f, 0xfd], true, "readonly-effect"),
     ];
+    // copies from a source offset >= 2^64 whose low limb is small: the specification says zero fill
+    v.push(("calldatacopy-src-2^64", vec![0x60, 0x20, 0x68, 1, 0, 0, 0, 0, 0, 0, 0, 0, 0x5f, 0x37, 0x60, 0x20, 0x5f, 0xf3], false, "copy-source-truncated"));
+    v.push(("codecopy-src-2^64+1", vec![0x60, 0x20, 0x68, 1, 0, 0, 0, 0, 0, 0, 0, 1, 0x5f, 0x39, 0x60, 0x20, 0x5f, 0xf3], false, "copy-source-truncated"));
+    v.push(("extcodecopy-src-2^128", {
+        let mut c = vec![0x60, 0x20, 0x70, 1];
+        c.extend_from_slice(&[0u8; 16]);
+        c.extend_from_slice(&[0x5f, 0x30, 0x3c, 0x60, 0x20, 0x5f, 0xf3]);
+        c
+    }, false, "copy-source-truncated"));
+    v.push(("calldataload-2^64+3", vec![0x68, 1, 0, 0, 0, 0, 0, 0, 0, 3, 0x35, 0x5f, 0x52, 0x60, 0x20, 0x5f, 0xf3], false, "copy-source-truncated"));
     let zero = BigUint::zero();
     v.push(("push-at-1024", stack_edge(1024, &zero, 0x5f, 0), false, "stack-over-1024"));
     v.push(("address-at-1024", stack_edge(1024, &zero, 0x30, 0), false, "stack-over-1024"));
@@ -1752,7 +1819,7 @@ fn probe_case(name: &str, runtime: &[u8], stat: bool) -> PCase {
         genr: format!("probe:{}", name),
         initcode: hex::encode(wrap_initcode(runtime)),
         deploy_value: 0,
-        invokes: vec![Inv { calldata: String::new(), value: 0, depth: if stat { 1 } else { 0 }, inner_call: false }],
+        invokes: vec![Inv { calldata: hex::encode([0x11u8; 48]), value: 0, depth: if stat { 1 } else { 0 }, inner_call: false }],
     }
 }
 /// the property's own verdict on a probe
@@ -1763,6 +1830,7 @@ fn probe_verdict(jo: &JobOut) -> Option<(String, String)> {
     let ok = match class {
         "bad-jumpdest-accepted" => r.1 == 39,
         "stack-over-1024" => r.1 == 37 && jo.max_depth <= 1024,
+        "copy-source-truncated" => r.1 == 0 && r.2 == 32 && !r.3,
         _ => r.1 == 0 && r.2 == 0, // beneath STATICCALL: the callee must fail without data
     };
     if ok { None } else { Some((class.to_string(), format!("probe {}: got {} / {} bytes / depth {}", name, r.1, r.2, jo.max_depth))) }
